@@ -17,17 +17,20 @@ SetMenu(id) == IF Rich >= 1 THEN { SetRec(TypeOf(id), mx, ms) : mx \in Maxes, ms
                       SetRec(TypeOf(id), 5678, {"10.0.0.1", "10.0.0.2"}), SetRec(TypeOf(id), 1234, {}) }
 
 \* ---- start kernels ----------------------------------------------------------------------------------
-StaleSets == [n \in {"cali40a", "cali40old", "cali4t0", "cali4t1", "felix-4old", "other", "cali60a"} |->
+\* foreign names include ones that merely CONTAIN a Felix prefix (an operator's backup copy, another tool's set)
+StaleSets == [n \in {"cali40a", "cali40old", "cali4t0", "cali4t1", "felix-4old", "other", "cali60a", "bak-cali40a", "fw-felix-4-allow"} |->
                 CASE n = "cali40a" -> SetRec("hash:ip", 5678, {"10.0.0.2", "10.0.0.9"})
                   [] n = "cali40old" -> SetRec("hash:ip", 1234, {"10.0.0.1"})
                   [] n = "cali4t0" -> SetRec("hash:ip", 1234, {"10.0.0.7"})
                   [] n = "cali4t1" -> SetRec("hash:net", 1234, {})
                   [] n = "felix-4old" -> SetRec("hash:net", 1234, {"10.9.0.0/16"})
                   [] n = "other" -> SetRec("hash:ip", 1234, {"10.0.0.1"})
-                  [] n = "cali60a" -> SetRec("hash:ip", 1234, {"10.0.0.2"})]
+                  [] n = "cali60a" -> SetRec("hash:ip", 1234, {"10.0.0.2"})
+                  [] n = "bak-cali40a" -> SetRec("hash:ip", 1234, {"10.0.0.1", "10.0.0.5"})
+                  [] n = "fw-felix-4-allow" -> SetRec("hash:net", 1234, {"10.8.0.0/16"})]
 StartSets == IF Rich >= 2 THEN SUBSET DOMAIN StaleSets
-             ELSE IF Rich >= 1 THEN {{}, {"cali40a", "cali4t0", "other"}, {"cali40old", "cali4t1", "felix-4old", "cali60a"}, DOMAIN StaleSets}
-             ELSE {{}, {"cali40a", "cali4t0", "other"}}
+             ELSE IF Rich >= 1 THEN {{}, {"cali40a", "cali4t0", "other", "bak-cali40a"}, {"cali40old", "cali4t1", "felix-4old", "cali60a", "fw-felix-4-allow"}, DOMAIN StaleSets}
+             ELSE {{}, {"cali40a", "cali4t0", "other", "bak-cali40a", "fw-felix-4-allow"}}
 StartKernels == { [n \in X |-> StaleSets[n]] : X \in StartSets }
 
 \* ---- out-of-band edits ---------------------------------------------------------------------------------
@@ -38,7 +41,9 @@ Edits ==
              [kind |-> "delm", set |-> "cali40a", member |-> "10.0.0.1"], [kind |-> "destroy", set |-> "cali40a"],
              [kind |-> "create", set |-> "cali4t0", s |-> SetRec("hash:ip", 1234, {"10.0.0.8"})],
              [kind |-> "setmax", set |-> "cali40a", s |-> SetRec("hash:ip", 5678, {})],
-             [kind |-> "addm", set |-> "other", member |-> "10.0.0.9"] }
+             [kind |-> "addm", set |-> "other", member |-> "10.0.0.9"],
+             [kind |-> "create", set |-> "x-cali4t9", s |-> SetRec("hash:ip", 1234, {"10.0.0.8"})],
+             [kind |-> "create", set |-> "old-felix-4x", s |-> SetRec("hash:ip", 1234, {})] }
       ELSE
     \* (members are written in the syntax of the set's type: cali40b is a hash:net set)
     { [kind |-> "addm", set |-> n, member |-> m] : n \in EditNames \ {"cali40b"}, m \in {"10.0.0.9", "10.0.0.1"} }
@@ -46,7 +51,8 @@ Edits ==
     \cup { [kind |-> "delm", set |-> n, member |-> m] : n \in EditNames \ {"cali40b"}, m \in {"10.0.0.1", "10.0.0.2"} }
     \cup { [kind |-> "delm", set |-> "cali40b", member |-> m] : m \in {"10.1.0.0/24", "10.2.0.0/16"} }
     \cup { [kind |-> "destroy", set |-> n] : n \in EditNames }
-    \cup { [kind |-> "create", set |-> n, s |-> SetRec("hash:ip", 1234, {"10.0.0.8"})] : n \in {"cali40a", "cali4t0", "cali4t1", "cali40old"} }
+    \cup { [kind |-> "create", set |-> n, s |-> SetRec("hash:ip", 1234, {"10.0.0.8"})] :
+             n \in {"cali40a", "cali4t0", "cali4t1", "cali40old", "x-cali4t9", "old-felix-4x", "my-cali60b"} }
     \cup { [kind |-> "setmax", set |-> n, s |-> SetRec("hash:ip", 5678, {})] : n \in {"cali40a", "other"} }
 
 EditFn(k, R, e) ==
